@@ -20,6 +20,7 @@ type Clause struct {
 	Site string // for call-site asserts: callee#k
 	Args []string
 	Mode string // "", "int", "bv": only visible in that mode
+	GhostDef bool // ensures generated from a ghostset: holds by definition, not checked against the body
 	bound bool  // an assert clause matched a call site
 	WF    bool  // data well-formedness precondition: checked by full-mode callers, assumed by thin-mode callers
 	Local bool  // checked in the function itself, not exported to callers (may mention locals)
@@ -33,6 +34,7 @@ type FuncSpec struct {
 	Params    []string
 	Model     string
 	Optional  bool
+	GhostSets [][3]string // ghost assignments at return: name, key expr, value expr
 	Harness   bool // implementer that exists only for lemma harnesses: dispatched to only inside lemmas
 	Mode      string // int | bv
 	Level     string // full | thin
@@ -45,6 +47,7 @@ type FuncSpec struct {
 	Ensures   []*Clause
 	Invs      []*Clause
 	Asserts   []*Clause
+	Assumes   []*Clause // explicit call-site assumptions (listed in the evidence)
 	Props     []*Clause // propagates
 	Modifies  []string
 	HasMod    bool
@@ -244,6 +247,29 @@ func (ss *SpecSet) parseFile(path string) error {
 			cur.MayPanic = true
 		case "tags":
 			cur.Tags = tags
+		case "ghostset":
+			// ghostset NAME[key] = expr : ghost assignment performed when the function returns (specification-only state)
+			if cur == nil {
+				return fail("ghostset outside func")
+			}
+			eq := strings.Index(rest, "=")
+			lb := strings.Index(rest, "[")
+			rb := strings.LastIndex(rest[:eq], "]")
+			if eq < 0 || lb < 0 || rb < lb {
+				return fail("ghostset NAME[key] = expr")
+			}
+			name := strings.TrimSpace(rest[:lb])
+			key := strings.TrimSpace(rest[lb+1 : rb])
+			val := strings.TrimSpace(rest[eq+1:])
+			cur.HasMod = cur.HasMod || false
+			cur.GhostSets = append(cur.GhostSets, [3]string{name, key, val})
+			c, err := mk("ensures", name+"("+key+") == ("+val+")")
+			if err != nil {
+				return err
+			}
+			c.GhostDef = true
+			c.Ord = len(cur.Ensures) + 1
+			cur.Ensures = append(cur.Ensures, c)
 		case "requires", "ensures":
 			if cur == nil {
 				return fail("%s outside func", kw)
@@ -317,6 +343,19 @@ func (ss *SpecSet) parseFile(path string) error {
 			c.Site = strings.TrimSpace(rest[:i])
 			c.Ord = len(cur.Asserts) + 1
 			cur.Asserts = append(cur.Asserts, c)
+		case "assume":
+			// assume callee#k : E   (after the k-th call of callee; old() = state before the call). An explicit, reported assumption.
+			i := strings.Index(rest, ":")
+			if i < 0 {
+				return fail("assume needs 'site : expr'")
+			}
+			c, err := mk("assume", strings.TrimSpace(rest[i+1:]))
+			if err != nil {
+				return err
+			}
+			c.Site = strings.TrimSpace(rest[:i])
+			c.Ord = len(cur.Assumes) + 1
+			cur.Assumes = append(cur.Assumes, c)
 		case "propagates":
 			// propagates RESULT from f, g
 			f := strings.SplitN(rest, " from ", 2)
@@ -458,7 +497,8 @@ type SExpr struct {
 	Name string // ident name, operator, field, literal text
 	Args []*SExpr
 	Vars []SParam // quantifier vars
-	Trig []*SExpr // quantifier triggers
+	Trig []*SExpr // quantifier triggers (first group)
+	Trigs [][]*SExpr // all trigger groups
 }
 
 func (e *SExpr) String() string {
@@ -602,25 +642,31 @@ func (p *sparser) expr() (*SExpr, error) {
 			return nil, err
 		}
 		var trig []*SExpr
-		if p.isOp("{") {
+		var groups [][]*SExpr
+		for p.isOp("{") {
 			p.next()
+			var g []*SExpr
 			for !p.isOp("}") {
 				e, err := p.postfix()
 				if err != nil {
 					return nil, err
 				}
-				trig = append(trig, e)
+				g = append(g, e)
 				if p.isOp(",") {
 					p.next()
 				}
 			}
 			p.next()
+			groups = append(groups, g)
+		}
+		if len(groups) > 0 {
+			trig = groups[0]
 		}
 		body, err := p.expr()
 		if err != nil {
 			return nil, err
 		}
-		return &SExpr{Op: t.s, Vars: vars, Args: []*SExpr{body}, Trig: trig}, nil
+		return &SExpr{Op: t.s, Vars: vars, Args: []*SExpr{body}, Trig: trig, Trigs: groups}, nil
 	}
 	return p.iff()
 }
